@@ -313,6 +313,25 @@ SSE_SCALAR_MERGE = ('sqrt#ps#', 'rcp#ps#', 'rsqrt#ps#', 'cvt#ps2pd')          # 
 SSE_NO_VERDICT = ('#p#test', 'comis#s#', 'ucomis#s#', '#p#cmpestri', '#p#cmpestrm', '#p#cmpistri', '#p#cmpistrm', 'cvt#pi2ps', 'cvt#ps2pi', 'cvtt#ps2pi')
 
 
+# x OP x is one constant whatever x holds (IA-32 optimisation manual, dependency-breaking idioms), keyed by opcode bytes behind 0F: bitwise xor / and-not, integer
+# subtraction (wrapping and saturating), integer greater-than (all zeroes), integer equality (all ones).  Floating-point subtraction and compares are not among them
+# (inf - inf and NaN - NaN are NaN), nor are the horizontal subtractions.
+SSE_SAME_REGISTER_CONSTANT = {(0xEF,): 'pxor', (0xDF,): 'pandn', (0x57,): 'xorps / xorpd', (0x55,): 'andnps / andnpd',
+                              (0xF8,): 'psubb', (0xF9,): 'psubw', (0xFA,): 'psubd', (0xFB,): 'psubq', (0xD8,): 'psubusb', (0xD9,): 'psubusw', (0xE8,): 'psubsb', (0xE9,): 'psubsw',
+                              (0x64,): 'pcmpgtb', (0x65,): 'pcmpgtw', (0x66,): 'pcmpgtd', (0x38, 0x37): 'pcmpgtq',
+                              (0x74,): 'pcmpeqb', (0x75,): 'pcmpeqw', (0x76,): 'pcmpeqd', (0x38, 0x29): 'pcmpeqq'}
+
+
+def same_register_constant(inst):
+    """The form names one register twice and the architecture's result does not depend on what it holds."""
+    opc = tuple(getattr(inst, 'opc', ()) or ())
+    if not inst.form.startswith('reg,rm=same') or opc[:1] != (0x0F,):
+        return False
+    if opc[1:] in ((0x57,), (0x55,)) and any(p in (0xF3, 0xF2) for p in inst.prefix or ()):
+        return False                    # no such instruction (rejected by the decoder; kept out of the idioms anyway)
+    return opc[1:] in SSE_SAME_REGISTER_CONSTANT
+
+
 def sse_merges(rowname, prefix, src_is_reg):
     """True: the architecture keeps part of the old destination register (it is an input); False: every bit of it is overwritten; None: no verdict here."""
     scalar = any(p in (0xF3, 0xF2) for p in prefix)
@@ -332,6 +351,7 @@ def sse_merges(rowname, prefix, src_is_reg):
 def sse_merge_rule(ctx, R, L, sem):
     afs, E = L.X.afs, L.X.env
     n = 0
+    n_same = [0, 0]
     for inst in L.lift_all():
         if inst.func is None or inst.unknown or not inst.modifs.get(E['mmx']):
             continue
@@ -343,6 +363,11 @@ def sse_merge_rule(ctx, R, L, sem):
             continue
         src_is_reg = isinstance(args[1], Term) and base_id(args[1]).kind == 'Id'
         verdict = sse_merges(inst.rowname, tuple(inst.prefix or ()), src_is_reg)
+        if same_register_constant(inst):
+            verdict = False
+            n_same[0] += 1
+        elif inst.form.startswith('reg,rm=same'):
+            n_same[1] += 1
         for dec, tmpl in inst.results:
             if isinstance(tmpl, LiftError) or not isinstance(tmpl, list):
                 continue
@@ -356,11 +381,15 @@ def sse_merge_rule(ctx, R, L, sem):
                             '%s (lifted by %s): the processor keeps part of the old value of %s, the lifted semantics do not read it (reads: %s)'
                             % (inst.key(), inst.func.name, dst.name, ', '.join(sorted(rid)) or 'none'), where(sem, inst.func.node), witness='f3 0f 10 c1 (movss xmm0, xmm1)')
             elif verdict is False:
-                R.ok(iid, sample='%s overwrites %s entirely' % (inst.key(), dst.name))
+                R.ok(iid, sample='%s %s' % (inst.key(), ('gives one constant whatever %s holds' if same_register_constant(inst) else 'overwrites %s entirely') % dst.name))
             else:
                 R.note('%s does not read its destination %s: no verdict from the merge table' % (inst.key(), dst.name))
     if not n:
         raise AnalysisError('no MMX/SSE form with a register destination among the lifter forms')
+    if n_same[0] < 20 or n_same[1] < 100:
+        raise AnalysisError('forms naming one MMX/SSE register twice: %d dependency-breaking idioms, %d others among the lifter forms (expected at least 20 / 100)' % tuple(n_same))
+    R.note('%d forms name one register twice and are dependency-breaking idioms (pxor, psub*, pcmpgt*, pcmpeq*, pandn, xorps, andnps: need not read it); %d others must read it'
+           % tuple(n_same))
 
 
 POPPING_ARITH = ('faddp', 'fsubp', 'fsubrp', 'fmulp', 'fdivp', 'fdivrp')
